@@ -618,6 +618,21 @@ fn wdt_case(c: &mut Case, s: &WdtSpec, rng: &mut Rng, rs: &mut Rng) {
         }
     };
     c.count("wdt_parsed", 1);
+    // the same bytes through a source that returns short reads (what a BufReader refill boundary, a pipe or an archive-backed
+    // stream does to a record): the same file
+    {
+        let max = 1 + (c.idx % 17) as usize * 3;
+        match trap(|| WdtReader::new(vh_common::ShortIo::new(Cursor::new(a.clone()), max), WDT_VERS[s.ver].0).read()) {
+            Ok(Ok(ps)) => {
+                c.count("wdt_parsed_through_short_reads", 1);
+                if ps != p {
+                    c.violate(format!("wdt|short-read-parse-differs|{era}|{kind}"), format!("WdtReader::read through a reader that returns at most {max} bytes per call yields another file than through a Cursor"), s.desc());
+                }
+            }
+            Ok(Err(e)) => c.violate(format!("wdt|short-read-parse-failed|{era}|{kind}"), format!("WdtReader::read through a reader that returns at most {max} bytes per call fails on bytes that parse from a Cursor: {e}"), s.desc()),
+            Err(pn) => c.violate(format!("wdt|parse-panic|{era}|{}", pn.sig()), pn.msg.clone(), s.desc()),
+        }
+    }
     c.count(if p.version() == WDT_VERS[s.ver].0 { "wdt_version_detected_as_written" } else { "wdt_version_detected_differently(not content)" }, 1);
     let mut equal = true;
     if p.mver != w.mver {
@@ -1276,6 +1291,20 @@ fn wdl_case(c: &mut Case, s: &WdlSpec, rng: &mut Rng) {
                 match wdl_content_diff(&p, &m, *mk < 2) {
                     None => c.count("wdl_roundtrip_equal", 1),
                     Some((k, t)) => c.violate(format!("wdl|roundtrip|{k}|{how}|{era}"), format!("content differs after write->parse ({vname}, grid {}, {how} parser): {t}", s.shape), s.desc()),
+                }
+                if pi == 0 {
+                    let max = 1 + (c.idx % 13) as usize * 5;
+                    let parser = WdlParser::with_version(ver);
+                    match trap(|| parser.parse(&mut vh_common::ShortIo::new(Cursor::new(a.clone()), max))) {
+                        Ok(Ok(ps)) => {
+                            c.count("wdl_parsed_through_short_reads", 1);
+                            if let Some((k, t)) = wdl_content_diff(&ps, &m, true) {
+                                c.violate(format!("wdl|short-read-parse-differs|{k}|{era}"), format!("WdlParser::parse through a reader that returns at most {max} bytes per call: {t}"), s.desc());
+                            }
+                        }
+                        Ok(Err(e)) => c.violate(format!("wdl|short-read-parse-failed|{era}"), format!("WdlParser::parse through a reader that returns at most {max} bytes per call fails on bytes that parse from a Cursor: {e}"), s.desc()),
+                        Err(pn) => c.violate(format!("wdl|parse-panic|{era}|{}", pn.sig()), pn.msg.clone(), s.desc()),
+                    }
                 }
                 if *mk < 2 {
                     parsed.push(p);
